@@ -35,7 +35,7 @@ def nontrivial(rec: dict, run: dict) -> bool:
 
 
 def run(tier: str, seed: int) -> int:
-    return S.check(PROP, tier, seed, nontrivial, RULE)
+    return S.check(PROP, tier, seed, nontrivial, RULE, refinement=[("ApiGateRefinesBlocked", ("single",), "F3")])
 
 
 def replay(path: str, tier: str, seed: int) -> int:
